@@ -275,11 +275,19 @@ def vec_units(ctx, src):
             rules.append(Rule(r'\b%s\.' % pname, pname + '->', count=(0 if nm == 'ne' else '+'), regex=True))
         if cls != 'Matrix4' and cret == cls or nm == 'mulv':
             rc = 'Vector4' if nm == 'mulv' else cls
-            rules.append(Rule(r'\b%s(?:<T>)?\(' % rc, rc + '_make(', count=1, regex=True))
+            rules.append(Rule(r'\b%s(?:<T>)?\(' % rc, rc + '_make(', count=None, regex=True))
         if cret.endswith('*'):
-            rules.append(Rule('return *this;', 'return self;', count=1))
+            rules.append(Rule('return *this;', 'return self;', count=None))
         if nm == 'ne':
-            rules.append(Rule('self->operator==(other)', '%s_eq(self, other)' % cls, count=1))
+            rules.append(Rule('self->operator==(other)', '%s_eq(self, other)' % cls, count=None))
+        # a member written in terms of another member of the same class: self->operator*(x) etc. (same kind of parameter)
+        if cls != 'Matrix4':
+            def _opcall(mo, cls=cls, pk=pk):
+                key = ('operator' + mo.group(1), pk if pk in ('T', 'V') else 'T')
+                if key not in OPNAME:
+                    raise ExtractionBreak('call of operator%s inside %s::%s is not in the C20 table' % (mo.group(1), cls, nm))
+                return '%s_%s(self, ' % (cls, OPNAME[key])
+            rules.append(Rule(r'self->operator([^\s(]+)\(', _opcall, count=None, regex=True))
         if nm == 'at':
             rules.append(Rule('(this)', '(self)', count=1))
         kw = {}
@@ -397,7 +405,7 @@ def random_units(ctx, src):
     u = Unit(ctx, 'random')
     u.function(src, RCC, r'void random_data\(void\* data, size_t bytes\)',
                rules=[Rule('static scoped_fd fd("/dev/urandom", O_RDONLY);', '', count=1),      # the descriptor: part of the stub
-                      Rule('static thread_local string buffer;', '', count=1),                   # hoisted (contracts/C20_random.h)
+                      Rule(r'static (?:thread_local )?string buffer;', '', count=1, regex=True),                   # hoisted (contracts/C20_random.h)
                       Rule('buffer.size()', 'buffer.size', count=6),
                       Rule('buffer.data()', 'buffer.data', count=2),
                       Rule('buffer = readx(fd, 4096);', 'readx_into(&buffer, 4096); if (verif_exc) return;', count=1),
